@@ -386,6 +386,57 @@ def sample_orders(files, rng, limit):
     return (chosen + rest)[:limit]
 
 
+AUX_LINT_REJECTED = """
+fn zz_wait_for(x: i32) -> i32
+{
+	if x == 50
+	{
+		loop;
+	}
+	return: x
+}
+
+fn zz_narrow() -> u8
+{
+	var big: i32 = 1000;
+	var small: u8 = big;
+	return: small
+}
+"""
+
+AUX_LINT_ACCEPTED = """
+pub fn zz_wait_twice() -> i32
+{
+	var x = 33;
+	if x == 50
+	{
+		loop;
+	}
+	if x == 100
+	{
+		loop;
+	}
+	return: x
+}
+"""
+
+AUX_BACKEND_REFUSES = """
+const ZZ_LIMIT: u8 = 200;
+const ZZ_TABLE: [4]u8 = [1, 2, 3, 4];
+
+struct ZzPair
+{
+	first: u8,
+	second: u8,
+}
+
+fn zz_sum(buffer: &[5000000000]u8) -> u8
+{
+	return: buffer[0] + ZZ_LIMIT + ZZ_TABLE[1]
+}
+"""
+
+
 def make_history_spec(rng, split, files, other_split, other_files, negative_module=None):
     groups = [[{"name": n, "source": files[n]} for n in split.files]]
     if other_split is not None:
@@ -395,6 +446,18 @@ def make_history_spec(rng, split, files, other_split, other_files, negative_modu
             mod["source"] = re.sub(r'import "', 'import "o/', mod["source"])
     if negative_module is not None:
         groups.append([{"name": "bad.pn", "source": negative_module}])
+    # modules that end badly or leave something to collect: rejected with lints
+    # pending, accepted with lints (perhaps never taken), refused by the back
+    # end while it declares a signature (an outer error, not a diagnostic)
+    aux = []
+    if rng.random() < 0.5:
+        aux.append({"name": "aux/lint_rejected.pn", "source": AUX_LINT_REJECTED})
+    if rng.random() < 0.5:
+        aux.append({"name": "aux/lint_accepted.pn", "source": AUX_LINT_ACCEPTED})
+    if rng.random() < 0.5:
+        aux.append({"name": "aux/backend_refuses.pn", "source": AUX_BACKEND_REFUSES})
+    if aux:
+        groups.append(aux)
     ops = []
     for g, group in enumerate(groups):
         for m in range(len(group)):
@@ -410,7 +473,7 @@ def make_history_spec(rng, split, files, other_split, other_files, negative_modu
             op["lints"] = False
     # a module abandoned half-way leaves declarations without bodies in the
     # combined module; linking is only judged when every module completed
-    complete = all(op["stop"] == "full" for op in ops) and negative_module is None
+    complete = all(op["stop"] == "full" for op in ops) and negative_module is None and not any(a["name"] != "aux/lint_accepted.pn" for a in aux)
     return {"groups": groups, "ops": ops, "link": True, "refs": True, "check_linked": complete}
 
 
